@@ -627,7 +627,7 @@ class Violation:
 
 class Stats:
     FIELDS = ("paths", "paths_asserting", "aborted", "queries", "sat", "unsat", "unknown", "solver_s",
-              "checks", "checks_concrete", "checks_nf", "checks_smt", "budget_hits", "frontier")
+              "checks", "checks_concrete", "checks_nf", "checks_smt", "budget_hits", "frontier", "retries")
 
     def __init__(self):
         for f in self.FIELDS:
@@ -696,11 +696,32 @@ class Explorer:
                 if len(self.pc) != n:
                     self.model = None
         t0 = time.time()
+        if self.qtimeout_ms > 1000:
+            self.solver.set("timeout", 1000)    # linear queries answer in milliseconds; hard ones go to the fallbacks
         r = self.solver.check(*extra)
+        s = str(r)
+        self._last_model = self.solver.model() if s == "sat" else None
+        if s == "unknown":
+            # the incremental core is weak on non-linear (and mixed int/real) arithmetic: retry one-shot, then with nlsat
+            for mk in (lambda: z3.Solver(), lambda: z3.Tactic("qfnra-nlsat").solver()):
+                try:
+                    s2 = mk()
+                    s2.set("timeout", self.qtimeout_ms)
+                    for c in self.pc:
+                        s2.add(c)
+                    for x in extra:
+                        s2.add(x)
+                    r2 = str(s2.check())
+                except z3.Z3Exception:
+                    continue
+                self.stats.retries += 1
+                if r2 in ("sat", "unsat"):
+                    s = r2
+                    self._last_model = s2.model() if s == "sat" else None
+                    break
         dt = time.time() - t0
         self.stats.queries += 1
         self.stats.solver_s += dt
-        s = str(r)
         if s == "sat":
             self.stats.sat += 1
         elif s == "unsat":
@@ -796,7 +817,7 @@ class Explorer:
         else:
             r1 = self._check(t)
             if r1 == "sat":
-                self.model = self.solver.model()
+                self.model = self._last_model
                 r2 = self._check(nt)
                 if r2 == "unknown":
                     self._inconc("branch", "negation undecided", nt)
@@ -806,7 +827,7 @@ class Explorer:
                     self._inconc("branch", "positive side undecided", t)
                 r2 = self._check(nt)
                 if r2 == "sat":
-                    self.model = self.solver.model()
+                    self.model = self._last_model
                     e = Entry(BR, False, other=False)
                 elif r2 == "unsat" and r1 == "unsat":
                     raise PathAbort("infeasible path condition")
@@ -845,7 +866,7 @@ class Explorer:
                 if r == "unknown":
                     self._inconc("concretise", "path condition undecided", t)
                 raise PathAbort("infeasible at concretisation")
-            self.model = self.solver.model()
+            self.model = self._last_model
             v = self.model.eval(t, model_completion=True).as_long()
         e = Entry(VAL, v, term=t, pc_len=len(self.pc))
         self.stack.append(e)
@@ -1052,7 +1073,7 @@ class Explorer:
                 if r == "unknown":
                     self._inconc("assume", "feasibility undecided", cond.t)
                     raise PathAbort("undecided")
-                self.model = self.solver.model()
+                self.model = self._last_model
             return
         if isinstance(cond, SInt):
             return self.assume(cond != 0)
@@ -1068,7 +1089,7 @@ class Explorer:
             if r == "unknown":
                 self._inconc("feasibility", "path condition undecided", z3.BoolVal(True))
                 raise PathAbort("undecided")
-            self.model = self.solver.model()
+            self.model = self._last_model
 
     def _model_inputs(self, m):
         out = {}
@@ -1085,7 +1106,7 @@ class Explorer:
             r = self._check()
             if r != "sat":
                 return None
-            m = self.model = self.solver.model()
+            m = self.model = self._last_model
         return self._model_inputs(m)
 
     def check(self, cond, label, key=None, required=True, detail=None):
@@ -1111,14 +1132,14 @@ class Explorer:
                                          negated_goal=_short(z3.Not(cond.t)), path_condition_conjuncts=len(self.pc)))
             return True
         if r == "sat":
-            m = self.solver.model()
+            m = self._last_model
             self._violate(label, key, self._model_inputs(m), detail)
             # continue the path under the assumption that the condition holds
             self._add(cond.t)
             self.model = None
             if self._check() != "sat":
                 raise PathAbort("no input satisfies the violated condition on this path")
-            self.model = self.solver.model()
+            self.model = self._last_model
             return False
         self._inconc("check", label, z3.Not(cond.t), required=required)
         self._add(cond.t)
